@@ -89,6 +89,7 @@ def run(ck):
     wrapper_rules(ck, F)
 
     check_dispatch_event(ck, F)
+    dispatch_forwarding(ck, F)
     check_pick_interest(ck, F)
     layered_drop_span(ck, F)
     from rules import C07 as _C07
@@ -698,3 +699,46 @@ def layered_drop_span(ck, F):
     else:
         ck.bad("C09.R2", key, where(b.raw["sp"]), "drop_span does not reach self.try_close on every path: an id dropped through the deprecated entry point "
                "(Box/Arc/Dispatch forward it) never closes -- no layer sees on_close and the registry keeps the span", fn=b.path)
+
+
+DISPATCH_FWD = ("enter", "exit", "new_span", "record", "record_follows_from", "clone_span", "try_close", "drop_span", "enabled",
+                "register_callsite", "max_level_hint", "current_span")
+
+
+def dispatch_forwarding(ck, F, rid="C09.R4", only=None):
+    """`Dispatch` is the handle every macro and span talks to. Each of its notification / query methods is the same-named
+    `Collect` method on `self.collector()`: called exactly once on every path, with the caller's arguments in order, and
+    its answer is what the method returns."""
+    from rulekit.sym import PathEval, show
+    D = "tracing_core::dispatch::Dispatch::"
+    for m in DISPATCH_FWD:
+        if only and m not in only:
+            continue
+        b = F.body(D + m)
+        key = "Dispatch::%s is Collect::%s on its own collector" % (m, m)
+        if not ck.anchor(rid, "Dispatch::" + m, b):
+            continue
+        problems = []
+        n = 0
+        for pth in PathEval(b).run():
+            if pth.end != "return":
+                continue
+            n += 1
+            cs = [c for c in pth.calls if c[1].get("trait") == COLLECT]
+            if len(cs) != 1 or cs[0][1].get("method") != m:
+                problems.append("a path makes the Collect calls %s" % [c[1].get("method") for c in cs])
+                continue
+            args = cs[0][2]
+            recv_ok = args and show(args[0]).startswith("collector(arg1")
+            rest = [show(a) for a in args[1:]]
+            want = ["arg%d" % k for k in range(2, b.argc + 1)]
+            if not recv_ok:
+                problems.append("the receiver is %s, not self.collector()" % (show(args[0]) if args else "?"))
+            if rest != want:
+                problems.append("arguments %s, expected %s" % (rest, want))
+            if b.locals and b.locals[0] != "()" and not (pth.ret is not None and pth.ret[0] == "call" and pth.ret[1].endswith("::" + m)):
+                problems.append("returns %s, not the collector's answer" % show(pth.ret)[:60])
+        if problems or not n:
+            ck.bad(rid, key, where(b.raw["sp"]), "; ".join(sorted(set(problems))[:3]) or "no returning path", fn=b.path)
+        else:
+            ck.ok(rid, key, fn=b.path)
